@@ -99,11 +99,11 @@ Print Assumptions C01_abbreviation_designates.
 Definition ex_flag (k : key) : argdef :=
   {| a_key := k; a_kind := DBool; a_vmode := VMNone; a_mand := false; a_multi := false; a_sep := 44%N;
      a_clear := false; a_sort := false; a_uniq := false; a_uniq_err := false; a_checks := []; a_fmts := [];
-     a_card := CardMax 1; a_excl := []; a_req := []; a_depr := false |}.
+     a_card := CardMax 1; a_excl := []; a_req := []; a_depr := false; a_mix := false |}.
 Definition ex_val (k : key) (kd : dkind) : argdef :=
   {| a_key := k; a_kind := kd; a_vmode := VMRequired; a_mand := false; a_multi := false; a_sep := 44%N;
      a_clear := false; a_sort := false; a_uniq := false; a_uniq_err := false; a_checks := []; a_fmts := [];
-     a_card := CardMax 1; a_excl := []; a_req := []; a_depr := false |}.
+     a_card := CardMax 1; a_excl := []; a_req := []; a_depr := false; a_mix := false |}.
 Definition w_number : str := [110; 117; 109; 98; 101; 114]%N.
 Definition w_name : str := [110; 97; 109; 101]%N.
 Definition ex_cfg : cfg :=
